@@ -9,8 +9,16 @@ BITOPS_W = ("set_bit", "clear_bit", "assign_bit", "get_and_set_bit", "union_with
 
 
 def bloom_fns(facts):
+    """the member functions of the filter as the rules look at them: statement-level calls of private void helpers are seen through
+    (checks or bit loops moved into a helper are still found in the operation that uses them); the calls the rules anchor on stay"""
+    from astu import inlined_body
     fns = functions_by(facts, ["filters"])
-    return fns, {p: f for p, f in fns.items() if f.get("rect") == REC}
+    by_pat = {f["pat"]: f for f in fns.values()}
+    bf = {}
+    for p, f in fns.items():
+        if f.get("rect") == REC:
+            bf[p] = dict(f, body=inlined_body(f, by_pat, keep=("update_num_bits_set",))) if f.get("body") is not None else f
+    return fns, bf
 
 
 def writes_bits(n):
@@ -44,7 +52,8 @@ def typestate(facts):
             continue
         base = "bloom_filter_alloc::%s" % fn["name"]
         # (b) read-only guard dominates the first write
-        st = stmts_of(fn["body"])
+        from astu import stmts_flat
+        st = stmts_flat(fn["body"])
         guard_at, write_at = None, None
         for i, s in enumerate(st):
             if guard_at is None and s.get("k") == "If" and is_this_field(s["c"], ("is_read_only_",)) and always_throws(s.get("t")):
@@ -217,7 +226,8 @@ def compat(facts):
     for pat, fn in sorted(bf.items()):
         if fn["name"] not in ("union_with", "intersect"):
             continue
-        st = stmts_of(fn["body"])
+        from astu import stmts_flat
+        st = stmts_flat(fn["body"])
         chk, wr = None, None
         for i, s in enumerate(st):
             if chk is None and s.get("k") == "If" and always_throws(s.get("t")):
@@ -326,6 +336,7 @@ def bitops(facts):
 def overload_siblings(facts):
     """update(T), query(T) and query_and_update(T) canonicalise and hash their argument identically"""
     fns, bf = bloom_fns(facts)
+    bf = {p: f for p, f in fns.items() if f.get("rect") == REC}     # the thin public overloads as written (no helper seen through)
     out = []
     fam = {}
     for pat, fn in bf.items():
